@@ -75,7 +75,6 @@ def _(c):
     c.let('cargs', 'gv_field(closure, "wl_closure.args")')
     c.requires('all(gv_int(gv_member(gv_member(gv_index(gv_field(closure, "wl_closure.args"), t), "a"), "size")) >= 0 for t in ints() if t >= 0)', 'array_sizes_are_not_negative')
     c.raises('AssertionError', when=None, exact=False)     # an object id <= 0 in the closure (UnresolvedObject asserts id > 0)
-    c.raises('RuntimeError', when=None, exact=False)
     c.ensures('result.name == gv_string(gv_field(msg, "wl_message.name")) and result.sent == is_sending and result.obj is object', 'name_direction_and_target_as_held_by_the_closure')
     c.ensures('len(result.args) == ncodes(sig, len(sig))', 'one_argument_per_type_code_of_the_signature')
     c.ensures('all((not is_type_code(ord(sig[p]))) or arg_from_slot(result.args[ncodes(sig, p)], cargs, mtypes, ncodes(sig, p), ord(sig[p]), new_id_is_actually_an_object) '
